@@ -30,7 +30,7 @@ def q(bits, vw, vh, to=900):
                  bound="visible %dx%d, %d-bit, caller A with tight strides, caller B with strides width+5 / chroma+3 / chroma+1, all sample and padding byte values" % (vw, vh, bits),
                  what="library picture depends only on visible samples; no access outside caller planes; caller memory not used after return")
 def queries(tier):
-    qs = [q(8, 10, 6), q(8, 10, 8), q(10, 10, 6)]
+    qs = [q(8, 10, 6), q(8, 10, 8), q(8, 16, 6), q(10, 10, 6)]
     if tier == "thorough":
         qs += [q(8, 10, 8, 3000), q(8, 8, 6, 3000), q(8, 16, 10, 3000), q(10, 12, 6, 3000)]
     return qs
